@@ -265,6 +265,9 @@ func BuildReply(name string, qtype, qclass uint16, tag string, serial uint32, d 
 		if d.N >= 4 {
 			m.Extra = append(m.Extra, &dns.A{Hdr: dns.RR_Header{Name: hostName(s, "ns.test."), Rrtype: dns.TypeA, Class: class, Ttl: nsTTL(d.N + 2)}, A: net.IP(s[8:12]).To4()})
 		}
+		if d.N >= 5 {
+			m.Extra = append(m.Extra, &dns.A{Hdr: dns.RR_Header{Name: hostName(s, "ns.test."), Rrtype: dns.TypeA, Class: class, Ttl: nsTTL(d.N + 3)}, A: net.IP(s[12:16]).To4()})
+		}
 	}
 	if d.Pad > 0 {
 		m.Answer = append(m.Answer, &dns.TXT{Hdr: dns.RR_Header{Name: name, Rrtype: dns.TypeTXT, Class: class, Ttl: ttlOf(5000)}, Txt: []string{strings.Repeat("p", d.Pad)}})
@@ -316,7 +319,17 @@ func AddOpt(m *dns.Msg, key [32]byte) {
 		&dns.EDNS0_SUBNET{Code: dns.EDNS0SUBNET, Family: 1, SourceNetmask: 24, SourceScope: 16, Address: net.IPv4(9, 9, 9, 0).To4()},
 		&dns.EDNS0_PADDING{Padding: make([]byte, int(key[2])%16)},
 	)
-	m.Extra = append(m.Extra, o)
+	// servers differ in where they put the OPT record: last (usual), first, or between other records
+	switch pos := int(key[3]) % 3; {
+	case pos == 1 && len(m.Extra) > 0:
+		m.Extra = append([]dns.RR{o}, m.Extra...)
+	case pos == 2 && len(m.Extra) > 1:
+		ex := append([]dns.RR{}, m.Extra[:1]...)
+		ex = append(ex, o)
+		m.Extra = append(ex, m.Extra[1:]...)
+	default:
+		m.Extra = append(m.Extra, o)
+	}
 }
 
 // RRKey is a canonical string of a record without its TTL.
